@@ -36,6 +36,9 @@ EvChecks(ev) ==
          << <<"C10.only-the-distributor-forwards", ev.res # "ok">>,
             <<"C10.rejected-forward-changes-nothing", ev.dpre = ev.dpost>> >>
     [] ev.ev = "setup" -> <<>>
+    \* the owner flips the take-rate switch with a message that carries nothing else: it must be accepted and stored
+    [] ev.ev = "setflag" ->
+         << <<"C10.take-switch.accepted-and-stored-as-set", ev.res = "ok" /\ ev.obs.take.active = ev.args.active>> >>
     [] OTHER -> << <<"TRACE.unknown-event", FALSE>> >>
 
 Report(ev, bad) ==
@@ -47,7 +50,11 @@ Next ==
   /\ l <= Len(Rec)
   /\ LET ev == Rec[l] IN
        /\ (IF ev.ev = "reset" THEN TRUE ELSE Report(ev, Failed(EvChecks(ev))))
-       /\ prev' = ev.obs
+       \* the take-rate configuration is the specification's own: what the owner's messages set, not what the collector reports
+       /\ prev' = [ev.obs EXCEPT !.take =
+                     IF ev.ev = "reset" THEN [active |-> ev.cfg.active, rate |-> ev.cfg.rate, dao_set |-> TRUE]
+                     ELSE IF ev.ev = "setflag" /\ ev.res = "ok" THEN [prev.take EXCEPT !.active = ev.args.active]
+                     ELSE prev.take]
   /\ l' = l + 1
 Spec == Init /\ [][Next]_vars
 Consumed ==
